@@ -387,3 +387,5 @@ def run(ctx, led):
              "of a bound read of the same variable (or has a table entry)", l10, ctx)
     run_rule(led, "L6", "a reason assembled from input data outside propagate is filtered to "
              "predicates that hold (instance-specific regression guard)", l6, ctx)
+    from . import predrules
+    run_rule(led, "L11", "implicit kernel reasons imply the predicate they explain (shared with C02-U8)", predrules.implicit_reasons, ctx)
